@@ -5,7 +5,12 @@ Cases: constraint templates (1-3 fields on attributes / child elements, typed in
 boolean / string / QName, constraints on the root, on a repeated section, on a sub-section, on a
 recursive section, key references to the same element or to a key of a descendant element) x tables
 of field tuples (exhaustive small tables + seeded random ones) with lexical variants of equal
-values, absent fields and duplicates, plus ID / IDREF attributes, x the NAMESPACE DECLARATIONS IN SCOPE
+values, absent fields and duplicates, plus ID / IDREF attributes, x SEVERAL CONSTRAINTS SELECTING THE SAME
+ELEMENT (keyref on the key's own rows = parent-pointer tables, second unique / key on the item and on the ref rows,
+K on a proper prefix of the fields so that a node lacks a field of one constraint and has all fields of another)
+x DECLARATION ORDER on a scope element (shuffled: keyref before / after its key, unique + key + keyref mixes)
+x nested / sibling scope elements (`sub` also directly under the root: a closed scope's counter precedes an open
+one in context.identities) x the NAMESPACE DECLARATIONS IN SCOPE
 where a field value is read: xmlns declarations (prefix rebindings p/q/r -> urn:a/b/c, default namespace on
 the target-namespace template) on the root, on containers, on the selected rows, on the field child elements,
 on leading (`pre`) / trailing (`note`) children of a row and their descendants, and on sibling `note`
@@ -19,7 +24,9 @@ For every case the real schema is built from generated XSD text, the instance is
   M   the Lean port of the algorithm of the current tree (XsVerif/Model/Identity.lean `runDoc`, `idRun`;
       it includes the repairs cc593f3 and b32146f, former findings C08-F6 / C08-F7) run on what
       was actually built (constraints, selector / field paths, static binding, declared types read from the
-      real objects; instance nodes paired with their declarations by a validation hook)  -> must be equal;
+      real objects; instance nodes paired with their declarations by a validation hook)  -> must be equal, as
+      multisets of (kind, constraint, node, times) AND as the sequence in which the identity errors are raised
+      (the model's collect loop runs over the open constraints in dict order of context.identities);
   S   the property itself: an independent Python reading of the XSD rules on the generator's abstract
       table (tiny path evaluator, value classes) and the Lean `specClauses` (whose per-scope checks are
       the Prop-valued spec of Props/C08.lean) -> a difference between I and S is a failing input unless it
@@ -196,26 +203,60 @@ def field_xpath(f: dict, side: str) -> str:
     return ('@' if loc == 'attr' else '') + f['name']
 
 
-def gen_constraints(rng, fields: list[dict], recursive: bool) -> list[dict]:
+def gen_constraints(rng, fields: list[dict], recursive: bool, rootsub: bool = False) -> list[dict]:
+    """K  key / unique on the `item` rows            R  keyref on the `ref` rows -> K
+       U  second unique / key on the `item` rows     P  keyref on the `item` rows themselves -> K ("parent pointer":
+       W  unique / key on the `ref` rows                the SAME element is selected by a keyref and by a key)
+    Several constraints select the same element; K may use only the first fields (the others are pointer columns of
+    P) so that a node can lack a field of one constraint and have all fields of another; the declaration order on a
+    scope element (= order of this list) is shuffled: keyref before / after its key, unique + key + keyref mixes;
+    the scope elements are chosen independently (outer keyref + inner key selecting the same nodes)."""
     cons = []
-    lv = rng.choice(['root', 'sec', 'sec', 'sub'])
+    SELECTORS = dict(globals()['SELECTORS'])
+    if rootsub:
+        SELECTORS['root'] = SELECTORS['root'] + ['sub/{t}', 'sub/{t}|sec/sub/{t}', 'sub/{t}|{t}']
+    lv = rng.choice(['root', 'sec', 'sec', 'sub'] + (['sub', 'sub'] if rootsub else []))
     kind = rng.choice(['key', 'unique', 'key'])
+    nf = len(fields)
+    overlap = rng.random() < 0.45
+    # fields of K: all of them, or (pointer tables) a proper prefix
+    m = rng.randint(1, nf - 1) if overlap and nf >= 2 and rng.random() < 0.7 else nf
+    kf = fields[:m]
     k = {'name': 'K', 'kind': kind, 'on': lv, 'sel': rng.choice(SELECTORS[lv]).format(t='item'),
-         'fields': [field_xpath(f, 'item') for f in fields], 'refer': None}
+         'fields': [field_xpath(f, 'item') for f in kf], 'refer': None}
     cons.append(k)
-    r = rng.random()
-    if r < 0.65:
+    ups = {'root': ['root'], 'sec': ['sec', 'sec', 'sec', 'root'], 'sub': ['sub', 'sub', 'sub', 'sec', 'root']}[lv]
+    if rootsub and lv == 'sub':
+        ups = ['sub', 'sub', 'root', 'root', 'sec']
+    if rng.random() < 0.65:
         # key reference: same element, or an ancestor of the key's element (refer across levels)
-        ups = {'root': ['root'], 'sec': ['sec', 'sec', 'sec', 'root'], 'sub': ['sub', 'sub', 'sub', 'sec', 'root']}[lv]
         on = rng.choice(ups)
         cons.append({'name': 'R', 'kind': 'keyref', 'on': on, 'sel': rng.choice(SELECTORS[on]).format(t='ref'),
-                     'fields': [field_xpath(f, 'ref') for f in fields], 'refer': 'K'})
-    if rng.random() < 0.3:
-        lv2 = rng.choice(['root', 'sec', 'sub'])
-        sub = fields[:rng.randint(1, len(fields))]
+                     'fields': [field_xpath(f, 'ref') for f in kf], 'refer': 'K'})
+    if overlap and rng.random() < 0.8:
+        # the pointer columns: the LAST m fields of the item rows (rotated when K uses every field)
+        pf = fields[nf - m:] if m < nf else fields[1:] + fields[:1]
+        for src, dst in zip(kf, pf):
+            if dst is not src and rng.random() < 0.75:      # a pointer column has the type of the key column
+                dst['ty'] = src['ty']
+        on = rng.choice(ups)
+        cons.append({'name': 'P', 'kind': 'keyref', 'on': on,
+                     'sel': k['sel'] if on == lv and rng.random() < 0.6 else rng.choice(SELECTORS[on]).format(t='item'),
+                     'fields': [field_xpath(f, 'item') for f in pf], 'refer': 'K'})
+    if rng.random() < (0.5 if overlap else 0.3):
+        lv2 = rng.choice([lv, lv, 'root', 'sec', 'sub'] if overlap else ['root', 'sec', 'sub'])
+        sub = fields[:rng.randint(1, nf)] if not overlap or rng.random() < 0.5 else fields[rng.randrange(nf):]
         cons.append({'name': 'U', 'kind': rng.choice(['unique', 'unique', 'key']), 'on': lv2,
                      'sel': rng.choice(SELECTORS[lv2]).format(t='item'),
                      'fields': [field_xpath(f, 'item') for f in sub], 'refer': None})
+    if overlap and rng.random() < 0.4:
+        lv3 = rng.choice(['root', 'sec', 'sub'])
+        sub = fields[:rng.randint(1, nf)]
+        cons.append({'name': 'W', 'kind': rng.choice(['unique', 'key']), 'on': lv3,
+                     'sel': rng.choice(SELECTORS[lv3]).format(t='ref'),
+                     'fields': [field_xpath(f, 'ref') for f in sub], 'refer': None})
+    if overlap or rng.random() < 0.3:
+        rng.shuffle(cons)
     return cons
 
 
@@ -237,7 +278,7 @@ def gen_row(rng, tag: str, fields: list[dict], p_absent: float, nclasses: int, t
     return {'tag': tag, 'vals': vals, 'kids': [], 'id': None, 'idref': None}
 
 
-def gen_doc(rng, fields: list[dict], recursive: bool, big: bool, tns: bool = False) -> dict:
+def gen_doc(rng, fields: list[dict], recursive: bool, big: bool, tns: bool = False, rootsub: bool = False) -> dict:
     p_absent = rng.choice([0.0, 0.0, 0.1, 0.3])
     ncl = rng.choice([1, 2, 2, 3])
 
@@ -259,6 +300,9 @@ def gen_doc(rng, fields: list[dict], recursive: bool, big: bool, tns: bool = Fal
     root = {'tag': 'root', 'vals': [], 'kids': [], 'id': None, 'idref': None}
     nsec = rng.choice([0, 1, 1, 1, 2, 2, 3]) if not big else rng.randint(1, 4)
     root['kids'] = [sec(0) for _ in range(nsec)] + rows(0, 3)
+    if rootsub:
+        root['kids'] += [{'tag': 'sub', 'vals': [], 'kids': rows(0, 3), 'id': None, 'idref': None}
+                         for _ in range(rng.choice([1, 1, 2]))]
     rng.shuffle(root['kids'])
     # ID / IDREF attributes on rows
     if rng.random() < 0.5:
@@ -320,10 +364,13 @@ def schema_text(case: dict) -> str:
                        + f'</xs:{c["kind"]}>')
         return ''.join(out)
 
+    rootsub = bool(case.get('rootsub'))      # `sub` is a global element, also allowed directly under the root
+
     def container(tag, local=False):
         kids = ''.join(
-            (f'<xs:element ref="{pf}{k}"/>' if k != 'sub' else container('sub', True))
-            for k in STRUCT[tag] if k != 'sec' or tag == 'root' or case['recursive'])
+            (f'<xs:element ref="{pf}{k}"/>' if k != 'sub' or rootsub else container('sub', True))
+            for k in STRUCT[tag] + (['sub'] if rootsub and tag == 'root' else [])
+            if k != 'sec' or tag == 'root' or case['recursive'])
         return (f'<xs:element name="{tag}"><xs:complexType><xs:choice minOccurs="0" maxOccurs="unbounded">'
                 f'{kids}<xs:element ref="{pf}note"/></xs:choice></xs:complexType>{idc(tag)}</xs:element>')
 
@@ -334,8 +381,8 @@ def schema_text(case: dict) -> str:
              f'<xs:element name="note" type="{pf}noteT"/><xs:element name="pre" type="{pf}noteT"/>')
     derived = ''.join(f'<xs:simpleType name="d_{ty}"><xs:restriction base="xs:{ty}"/></xs:simpleType>'
                       for ty in TYPES) if any(f.get('d') or f.get('rd') for f in fields) else ''
-    return (head + container('root') + container('sec') + row_decl('item') + row_decl('ref') + notes + derived
-            + '</xs:schema>')
+    return (head + container('root') + container('sec') + (container('sub') if rootsub else '')
+            + row_decl('item') + row_decl('ref') + notes + derived + '</xs:schema>')
 
 
 def root_decls(case: dict) -> dict:
@@ -454,6 +501,7 @@ def oracle(case: dict) -> dict:
     flags = {'nested': set(), 'spread': set(), 'strq': set(), 'conflict': False, 'fieldns': fieldns}
     cover = set()          # branches of the rules reached (input-distribution histogram only)
     work = 0
+    picked: dict[int, list] = {}      # node -> [(constraint, all its fields present)] over all scope instances
 
     def scopes(cname, s):
         return [n for n in a_dos(s) if n['tag'] == by_name[cname]['on']]
@@ -468,6 +516,8 @@ def oracle(case: dict) -> dict:
             targets = a_select(c['sel'], s)
             tuples = [tup(c, n) for n in targets]
             q = qualified(c, s)
+            for n_, t_ in zip(targets, tuples):
+                picked.setdefault(id(n_), []).append((c, None not in t_))
             if len(tuples) >= 2 or any(None in t for t in tuples):
                 work += 1
             if c['kind'] == 'unique':
@@ -501,6 +551,61 @@ def oracle(case: dict) -> dict:
                         clauses.add(('notfound', r['name']))
                         if lo(t) in loose:
                             flags['strq'].add(c['name'])
+    # the dimension `several constraints select the same element` (histogram only).  Open-constraints order of
+    # the code: outer scope elements first, then declaration order on one scope element
+    pos: dict[str, int] = {}          # insertion order of the counters: first entry of a scope element, declaration order
+    for n_ in nodes:
+        for c in cons:
+            if c['on'] == n_['tag'] and c['name'] not in pos:
+                pos[c['name']] = len(pos)
+    for c in cons:
+        pos.setdefault(c['name'], len(pos))
+    parent = {id(k): n_ for n_ in nodes for k in n_['kids']}
+
+    def inside(tag: str, n_: dict) -> bool:
+        while n_ is not None:
+            if n_['tag'] == tag:
+                return True
+            n_ = parent.get(id(n_))
+        return False
+
+    first = {c['name']: min((order[id(x)] for x in nodes if x['tag'] == c['on']), default=None) for c in cons}
+    by_id = {id(x): x for x in nodes}
+    for nid, sel in picked.items():
+        n_ = by_id[nid]
+        for d, _ in sel:
+            if any(pos[e['name']] < pos[d['name']] and first[e['name']] is not None
+                   and first[e['name']] < order[nid] and not inside(e['on'], n_) for e in cons):
+                cover.add('overlap:node-collected-while-a-constraint-EARLIER-in-open-order-is-closed')
+    for sel in picked.values():
+        names = {c['name'] for c, _ in sel}
+        if len(names) < 2:
+            continue
+        cover.add('overlap:node-selected-by-%d-constraints' % min(len(names), 4))
+        kinds = {c['kind'] for c, _ in sel}
+        if 'keyref' in kinds and kinds & {'key', 'unique'}:
+            cover.add('overlap:node-selected-by-keyref-AND-key/unique')
+        if len({c['on'] for c, _ in sel}) > 1:
+            cover.add('overlap:node-selected-from-nested-scopes')
+        for c, complete in sel:
+            if complete:
+                continue
+            others = [(d, dc) for d, dc in sel if d['name'] != c['name']]
+            if any(dc for _, dc in others):
+                cover.add('overlap:node-lacks-field-of-%s-but-has-all-fields-of-another-constraint' % c['kind'])
+            if c['kind'] == 'keyref' and any(pos[d['name']] > pos[c['name']] for d, _ in others):
+                cover.add('overlap:node-lacks-KEYREF-field/another-constraint-LATER-in-open-order')
+            if c['kind'] in ('unique', 'key') and any(pos[d['name']] > pos[c['name']] for d, _ in others):
+                cover.add('overlap:node-lacks-%s-field/another-constraint-LATER-in-open-order' % c['kind'])
+    by_on: dict[str, list] = {}
+    for c in cons:
+        by_on.setdefault(c['on'], []).append(c)
+    for cs in by_on.values():
+        for i, c in enumerate(cs):
+            if c['kind'] == 'keyref' and any(d['name'] == c['refer'] for d in cs[i + 1:]):
+                cover.add('order:keyref-declared-BEFORE-its-key-on-one-element')
+            if c['kind'] == 'keyref' and any(d['name'] == c['refer'] for d in cs[:i]):
+                cover.add('order:keyref-declared-after-its-key-on-one-element')
     # ID / IDREF
     ids = [n['id'] for n in nodes if n['id']]
     refs = [n['idref'] for n in nodes if n['idref']]
@@ -684,9 +789,9 @@ def run_impl(case: dict) -> dict:
                 canon.append(['idref', m.group(1), 0, 0])
                 continue
             other.append(reason[:200])
-        return sorted(canon), other
+        return sorted(canon), other, [e for e in canon if e[0] in ('dup', 'missing', 'multi', 'notfound')]
 
-    canon, other = canonical(errors)
+    canon, other, seq = canonical(errors)
     clauses = set()
     for k, a, _, _ in canon:
         clauses.add((k, a) if k in ('dup', 'notfound') else (k,))
@@ -700,11 +805,12 @@ def run_impl(case: dict) -> dict:
                 'abdera': cv.AbderaConverter, 'columnar': cv.ColumnarConverter, 'gdata': cv.GDataConverter}[case['decode']]
         try:
             _, derrs = schema.decode(resource, validation='lax', converter=conv, namespaces=nsarg)
-            dcanon, dother = canonical(derrs)
+            dcanon, dother, _ = canonical(derrs)
             decode = {'errors': dcanon, 'other': dother, 'is_valid': schema.is_valid(resource, namespaces=nsarg)}
         except Exception as exc:       # noqa: BLE001  (reported as a failing input by `evaluate`)
             decode = {'raised': type(exc).__name__ + ': ' + str(exc)[:200]}
-    return {'errors': canon, 'other': other, 'crash': crashed, 'clauses': clauses, 'req': req, 'decode': decode,
+    return {'errors': canon, 'seq': seq, 'other': other, 'crash': crashed, 'clauses': clauses, 'req': req,
+            'decode': decode,
             'names': names, 'cons': cons_json, 'n_unpaired': sum(1 for e in elems if id(e) not in decl_of)}
 
 
@@ -722,9 +828,10 @@ def model_canon(ans: dict, impl: dict) -> dict:
         else:
             r = cons[c]['refer']
             errs.append(['notfound', names[r], n, x])
+    seq = list(errs)        # the identity errors in the order the model raises them (dict order of the open constraints)
     for k, v in ans['id']:
         errs.append([k, v, 0, 0])
-    return {'errors': sorted(errs), 'crash': None}          # the model never raises
+    return {'errors': sorted(errs), 'seq': seq, 'crash': None}          # the model never raises
 
 
 def lean_clauses(ans: dict, impl: dict) -> set:
@@ -806,7 +913,7 @@ def evaluate(ctx: Ctx, case: dict, reqs: Optional[list], pend: Optional[list], t
     for k in sorted({e[0] for e in impl['errors']}):
         ctx.count('err:' + k)
     for k in sorted(orc['cover']):
-        ctx.count('branch:' + k)
+        ctx.count(k if k.startswith(('overlap:', 'order:')) else 'branch:' + k)
     ctx.count('verdict:' + ('crash' if impl['crash'] else 'invalid' if impl['errors'] else 'valid'))
     for k in ns_stats(case):
         ctx.count(k)
@@ -892,6 +999,10 @@ def flush(ctx: Ctx, drv: Driver, reqs: list, pend: list) -> None:
             elif not impl['crash'] and mc['errors'] != impl['errors']:
                 agrees = False
                 ctx.mismatch('identity errors (kind, constraint, node, times)', case, impl['errors'], mc['errors'])
+            elif not impl['crash'] and mc['seq'] != impl['seq']:
+                agrees = False
+                ctx.mismatch('order of the identity errors (order of the open constraints in context.identities)',
+                             case, impl['seq'], mc['seq'])
             if not impl['crash']:
                 lc = lean_clauses(ans, impl)
                 if lc != orc['clauses']:
@@ -1036,9 +1147,10 @@ def random_case(rng, big: bool) -> dict:
     nf = rng.choice([1, 1, 2, 2, 3])
     fields = gen_fields(rng, nf, 0.5 if nsmode == 'scatter' else 0.0, rng.random() < 0.25)
     recursive = rng.random() < 0.12
-    cons = gen_constraints(rng, fields, recursive)
+    rootsub = rng.random() < 0.3
+    cons = gen_constraints(rng, fields, recursive, rootsub)
     case = {'v': rng.choice(['1.0', '1.0', '1.1']), 'recursive': recursive, 'fields': fields, 'cons': cons,
-            'doc': gen_doc(rng, fields, recursive, big, tns), 'tns': tns,
+            'doc': gen_doc(rng, fields, recursive, big, tns, rootsub), 'tns': tns, **({'rootsub': True} if rootsub else {}),
             'src': rng.choice(['etree', 'etree', 'text', 'lxml'] if nsmode == 'root' else ['text', 'text', 'lxml'])}
     if tns and rng.random() < 0.3:
         case['etag'] = 'default'
@@ -1313,6 +1425,43 @@ def ns_placement_cases(ctx: Ctx):
                                            'ns': rootns}}
 
 
+def overlap_cases(ctx: Ctx):
+    """exhaustive: the SAME rows selected by a keyref and by the key / unique it refers to (a table of rows with an
+    id column f1 and a parent-pointer column f2), optionally by a further unique on the pointer column, or by a
+    two-field unique V(f1, f2) and the key K(f1) (with / without the keyref); every
+    declaration order of the constraints; all on the root, or the keyref (and the unique) on the root and the key on
+    the single `sec` below it (outer keyref + inner key selecting the same nodes); every small table over
+    f1 in {absent, 1, 01, 2} x f2 in {absent, 1, 2} (rows lacking a field of one constraint but not of the other)."""
+    fields = [{'name': 'f1', 'loc': 'attr', 'ty': 'integer', 'rloc': 'attr', 'rty': 'integer'},
+              {'name': 'f2', 'loc': 'attr', 'ty': 'integer', 'rloc': 'attr', 'rty': 'integer'}]
+    v1 = [None, ['n1', '1'], ['n1', '01'], ['n2', '2']]
+    v2 = [None, ['n1', '1'], ['n2', '2']]
+    rows2 = list(itertools.product(v1, v2))
+    rows3 = list(itertools.product(v1, v2[:ctx.pick(2, 3)]))
+    tables_full = [t for n in range(3) for t in itertools.product(rows2, repeat=n)] + \
+        list(itertools.product(rows3, repeat=3))
+    tables_small = [t for n in range(3) for t in itertools.product(rows2, repeat=n)] + \
+        (list(itertools.product(rows3, repeat=3)) if not ctx.quick() else [])
+    for nested in (False, True):
+        outer, inner = 'root', ('sec' if nested else 'root')
+        osel = 'sec/item' if nested else 'item'
+        for mix in ('KP', 'KPU', 'VK', 'VKP'):
+            for kind in (('key', 'unique') if mix in ('KP', 'VK') else ('key',)):
+                base = {'K': {'name': 'K', 'kind': kind, 'on': inner, 'sel': 'item', 'fields': ['@f1'], 'refer': None},
+                        'P': {'name': 'P', 'kind': 'keyref', 'on': outer, 'sel': osel, 'fields': ['@f2'], 'refer': 'K'},
+                        'U': {'name': 'U', 'kind': 'unique', 'on': outer, 'sel': osel, 'fields': ['@f2'], 'refer': None},
+                        # a two-field unique: a row with exactly one of the fields is outside ITS qualified node set
+                        'V': {'name': 'V', 'kind': 'unique', 'on': outer, 'sel': osel, 'fields': ['@f1', '@f2'],
+                              'refer': None}}
+                for order in itertools.permutations(mix):
+                    cons = [base[x] for x in order]
+                    for table in (tables_full if mix in ('KP', 'VK') else tables_small):
+                        rows = [_row('item', *r) for r in table]
+                        kids = [{'tag': 'sec', 'vals': [], 'kids': rows, 'id': None, 'idref': None}] if nested else rows
+                        yield {'v': '1.0', 'recursive': False, 'fields': fields, 'cons': cons,
+                               'doc': {'tag': 'root', 'vals': [], 'kids': kids, 'id': None, 'idref': None}}
+
+
 def run(ctx: Ctx, driver_ok: bool) -> None:
     load_findings(ctx)
     detect_mode()
@@ -1343,6 +1492,8 @@ def run(ctx: Ctx, driver_ok: bool) -> None:
         go(case, 'exhaustive-unique-partial')
     for case in ns_placement_cases(ctx):
         go(case, 'exhaustive-ns-placement')
+    for case in overlap_cases(ctx):
+        go(case, 'exhaustive-overlap')
     n = ctx.pick(4000, 30000)
     for i in range(n):
         go(random_case(ctx.rng, big=(i % 5 == 4)), 'random')
@@ -1359,7 +1510,9 @@ def run(ctx: Ctx, driver_ok: bool) -> None:
                                 'unique (quick: those with a partially absent tuple); every placement of a declaration '
                                 'rebinding the prefix (default namespace) of a QName field value relative to two key rows '
                                 'and a reference row (on the row, its field elements, leading / trailing children, a nested '
-                                'descendant, sibling notes before / after) x attribute / child field x text / lxml source.  '
+                                'descendant, sibling notes before / after) x attribute / child field x text / lxml source; '
+                                'every small id / parent-pointer table whose rows are selected by a keyref AND the key / unique '
+                                'it refers to (and a further unique) x every declaration order x same / nested scope elements.  '
                                 'random: %d seeded template x document cases') % (ctx.pick(3, 4), n)
 
 
